@@ -558,6 +558,24 @@ func domRfl(r *gen.Rng, n int, thorough bool, o *Out) {
 				}
 				return ans.String()
 			})
+			// typed operations on two reflection-backed objects (the unordered reflect-to-reflect zip) give
+			// what they give on the two JSON round trips
+			ta, e1 := typed.DeducedParseableType.FromStructured(ptr.Interface())
+			tb, e2 := typed.DeducedParseableType.FromStructured(ptr2.Interface())
+			ua, e3 := typed.DeducedParseableType.FromUnstructured(want)
+			ub, e4 := typed.DeducedParseableType.FromUnstructured(want2)
+			if e1 == nil && e2 == nil && e3 == nil && e4 == nil {
+				c1, err1 := ta.Compare(tb)
+				c2, err2 := ua.Compare(ub)
+				if (err1 == nil) != (err2 == nil) || (err1 == nil && cmpString(c1) != cmpString(c2)) {
+					o.Fail("C18", "reflect/typed-compare-of-two-reflected-agrees", "", "reflect/typed-compare-of-two-reflected-agrees "+sig, "rfl:"+sig)
+				}
+				m1, err1 := ta.Merge(tb)
+				m2, err2 := ua.Merge(ub)
+				if (err1 == nil) != (err2 == nil) || (err1 == nil && vx.CanonValue(m1.AsValue()) != vx.CanonValue(m2.AsValue())) {
+					o.Fail("C18", "reflect/typed-merge-of-two-reflected-agrees", "", "reflect/typed-merge-of-two-reflected-agrees "+sig, "rfl:"+sig)
+				}
+			}
 			return ""
 		})
 		// Map.Set through the generic interface on a reflected struct: a field whose Go type takes
